@@ -123,7 +123,7 @@ impl<'a> Run<'a> {
         let mut d = new_driver("C08");
         d.exec(Op::Init { hash: hist::ZERO_HASH.into(), ts: 1, height: 0 });
         let pk = "5120f0f0f0f0f0f0f0f0f0f0f0f0f0f0f0f0f0f0f0f0f0f0f0f0f0f0f0f0f0f0f0".to_string();
-        let h = format!("0x{:064x}", 0xc08u64);
+        let h = crate::hist::bh((0xc08u64) as u64);
         let r = d.exec(Op::Deploy { pk, data: hist::hx(&asm::tool_init()), enc: Enc::Hex, ctx: Ctx { ts: 2, hash: h.clone(), idx: 0 }, iid: "c08-tool".into(), len: 100_000, txid: hist::ZERO_HASH.into() });
         let tool = hist::created_address(&r)?;
         d.exec(Op::Finalise { ts: 2, hash: h, count: 1 });
@@ -168,7 +168,7 @@ impl<'a> Run<'a> {
         self.payloads.insert(payload, hist::hx(&data));
         self.script.push(format!("block {}: transact nonce {} ({}) payload {}", block, nonce, variant, payload));
         let idx = self.d.ntx;
-        let r = self.d.exec(Op::Transact { raw: format!("0x{}", raw), enc: Enc::Hex, ctx: Ctx { ts, hash, idx }, iid: format!("c08-{}-{}i0", payload, self.uniq), len: 100_000, txid: format!("0x{:064x}", self.uniq) });
+        let r = self.d.exec(Op::Transact { raw: format!("0x{}", raw), enc: Enc::Hex, ctx: Ctx { ts, hash, idx }, iid: format!("c08-{}-{}i0", payload, self.uniq), len: 100_000, txid: crate::hist::bh((self.uniq) as u64) });
         rep.evaluations += 1;
         if variant == "undecodable" {
             if !r.is_err() {
